@@ -303,7 +303,10 @@ def name_kind_sinks(eng, rep, rule: str, modules: Iterable[str], consequence: st
             for g, e in origins(f, c.args[0], 2):
                 if not (isinstance(e, ast.Attribute) and e.attr == "name"):
                     continue
-                t = T.fn(g).of(e.value)
+                recv_ = e.value
+                if isinstance(recv_, ast.Name):
+                    recv_ = next((x for x in walk_local(g.node) if isinstance(x, ast.Name) and x.id == recv_.id), recv_)
+                t = T.fn(g).of(recv_)
                 insts = [u[1] for u in members(t) if u[0] == "inst"]
                 if not insts and isinstance(e.value, ast.Name):
                     # a check registered for one category of nodes receives nodes of that category: @register(verifier, "impl")
@@ -691,3 +694,123 @@ def cg_writes(eng, f: FuncInfo, call: ast.Call) -> bool:
         if isinstance(x, ast.Call) and isinstance(x.func, ast.Attribute) and x.func.attr in ("write_text", "write_bytes"):
             return True
     return False
+
+
+def named_after_referent(eng, rep, rule: str, modules: Iterable[str], consequence: str) -> int:
+    """Rec(name=<binding>.type ...): something that stands for a BINDING (an impl) is given, as its own name, the name of the
+    struct the binding refers to; the binding has a name of its own (`impl can for S as N`), and two bindings of one struct
+    then carry the same name"""
+    from ..dataflow import deep_resolve
+    from ..types_lite import members
+    prog, T = eng.prog, eng.T
+    n = 0
+    for f in _funcs_in(eng, modules):
+        ft = None
+        for c in walk_local(f.node):
+            if not isinstance(c, ast.Call):
+                continue
+            for k in c.keywords:
+                if k.arg != "name":
+                    continue
+                v = deep_resolve(f.node, k.value)
+                if not (isinstance(v, ast.Attribute) and v.attr in ("type", "name")):
+                    continue
+                ft = ft or T.fn(f)
+                recv = v.value
+                if isinstance(recv, ast.Name):
+                    # deep_resolve returns copies: ask for the type of an original occurrence of the name
+                    recv = next((x for x in walk_local(f.node) if isinstance(x, ast.Name) and x.id == recv.id), recv)
+                insts = [u[1] for u in members(ft.of(recv)) if u[0] == "inst"]
+                if insts != ["fcp.specs.impl.Impl"]:
+                    continue
+                n += 1
+                if v.attr == "type":
+                    rep.violation(rule, f.file, f.qual, norm(c.func, 30) + "(name=%s)" % norm(k.value, 30), "named after the struct the binding refers to (%s) instead of the binding's own name: %s" % (norm(v, 30), consequence))
+                else:
+                    rep.ok(rule, f.file, f.qual, norm(c.func, 30) + "(name=%s)" % norm(k.value, 30), "the binding's own name")
+    rep.ok(rule, "-", "-", "things named from an impl", "%d judged" % n)
+    return n
+
+
+def fold_step_drops_accumulator(eng, rep, rule: str, modules: Iterable[str], consequence: str) -> int:
+    """a table of steps `lambda acc, ...: <new acc>` (applied as acc = TABLE[k](acc, ...)): a step whose result does not mention
+    its first parameter throws away what the earlier steps put there, while its siblings carry it on"""
+    prog = eng.prog
+    n = 0
+    for m in prog.modules.values():
+        if not (m.name in tuple(modules) or any(m.name.startswith(x + ".") for x in modules)):
+            continue
+        tables = []  # (name, Dict node, where)
+        for st in m.tree.body:
+            if isinstance(st, (ast.Assign, ast.AnnAssign)) and isinstance(st.value, ast.Dict):
+                t = st.targets[0] if isinstance(st, ast.Assign) else st.target
+                if isinstance(t, ast.Name):
+                    tables.append((t.id, st.value, None))
+        for f in m.functions.values():
+            for st in walk_local(f.node):
+                if isinstance(st, (ast.Assign, ast.AnnAssign)) and isinstance(st.value, ast.Dict):
+                    t = st.targets[0] if isinstance(st, ast.Assign) else st.target
+                    if isinstance(t, ast.Name):
+                        tables.append((t.id, st.value, f))
+        # a table written (or propagated by the normaliser) right where it is applied: {...}[k](acc, ...)
+        for f in list(m.functions.values()) + [mm for ci in m.classes.values() for mm in ci.methods.values()]:
+            for c in walk_local(f.node):
+                if isinstance(c, ast.Call) and isinstance(c.func, ast.Subscript) and isinstance(c.func.value, ast.Dict) and c.args:
+                    tables.append((None, c.func.value, f))
+        for name, d, where in tables:
+            lams = [(k, v) for k, v in zip(d.keys, d.values) if isinstance(v, ast.Lambda) and len(v.args.args) >= 2]
+            if len(lams) < 2 or len(lams) != len(d.values):
+                continue
+            # applied with an accumulator: NAME[...](x, ...) somewhere in the module
+            applied = name is None or any(isinstance(c, ast.Call) and isinstance(c.func, ast.Subscript) and isinstance(c.func.value, ast.Name) and c.func.value.id == name and c.args for c in ast.walk(m.tree))
+            name = name or "{...}"
+            if not applied:
+                continue
+            uses = {id(v): any(isinstance(x, ast.Name) and x.id == v.args.args[0].arg for x in ast.walk(v.body)) for k, v in lams}
+            if not any(uses.values()):
+                continue
+            n += 1
+            for k, v in lams:
+                site = "%s[%s] = %s" % (name, norm(k, 20), norm(v, 60))
+                file_ = m.relpath
+                qual_ = where.qual if where is not None else m.name
+                if uses[id(v)]:
+                    rep.ok(rule, file_, qual_, site, "the step builds on what it receives")
+                else:
+                    rep.violation(rule, file_, qual_, site, "this step returns a value that does not depend on the accumulated one ('%s') while the other steps of the table carry it on: whatever the earlier steps set is dropped - %s" % (v.args.args[0].arg, consequence))
+    rep.ok(rule, "-", "-", "tables of fold steps", "%d judged" % n)
+    return n
+
+
+def mixed_worklist_ends(eng, rep, rule: str, modules: Iterable[str], consequence: str) -> int:
+    """a work-list loop that takes from one end of a deque and puts new work back at that same end everywhere (depth first: what a
+    node expands to is handled before its siblings) - except one place that puts it at the OTHER end, deferring it behind
+    everything still pending.  The places contradict each other; the emission order of that branch differs from the others'."""
+    n = 0
+    for f in _funcs_in(eng, modules):
+        for w in walk_local(f.node):
+            if not isinstance(w, ast.While):
+                continue
+            pops = {}
+            for c in ast.walk(w):
+                if isinstance(c, ast.Call) and isinstance(c.func, ast.Attribute) and isinstance(c.func.value, ast.Name) and c.func.attr in ("popleft", "pop") and not c.args:
+                    pops.setdefault(c.func.value.id, set()).add("left" if c.func.attr == "popleft" else "right")
+            for D, ends in pops.items():
+                if len(ends) != 1:
+                    continue
+                take = next(iter(ends))
+                pushes = [c for c in ast.walk(w) if isinstance(c, ast.Call) and isinstance(c.func, ast.Attribute) and isinstance(c.func.value, ast.Name) and c.func.value.id == D and c.func.attr in ("append", "extend", "appendleft", "extendleft")]
+                if len(pushes) < 2:
+                    continue
+                same = [c for c in pushes if (c.func.attr.endswith("left")) == (take == "left")]
+                other = [c for c in pushes if c not in same]
+                if not any(c.func.attr in ("appendleft", "extendleft") for c in pushes):
+                    continue  # a plain list used as a stack or queue: nothing to contradict
+                n += 1
+                if same and other and len(same) > len(other):
+                    for c in other:
+                        rep.violation(rule, f.file, f.qual, norm(c, 60), "the loop takes work from the %s of '%s' and puts expansions back at the %s in %d places, but here at the other end: this piece is handled after everything that is still pending instead of right away - %s" % (take, D, take, len(same), consequence))
+                else:
+                    rep.ok(rule, f.file, f.qual, "%s in a work-list loop" % D, "expansions are all put back at one end")
+    rep.ok(rule, "-", "-", "deque work-list loops", "%d judged" % n)
+    return n
